@@ -58,8 +58,8 @@ class LookupMixin:
                 continue
             try:
                 summ = self._classify_search(fi, params)
-            except AnalysisError:
-                summ = None
+            except (AnalysisError, RecursionError, KeyError, AttributeError, TypeError, IndexError, ValueError):
+                summ = None      # not interpretable with probe arguments: not a search function
             if summ is not None:
                 self.summaries[fi.qualname] = summ
 
